@@ -350,7 +350,11 @@ def _amen_mm_python(A_cores, B_cores, M, N, K, to_ttm, nswp=22, X0_cores=None, r
                     v = v @ Rmat.t()
 
                 r = u.shape[1]
-                _verif.emit('amen_step', swp=int(swp), k=int(k), rows=int(u.shape[0]), cols=int(rx[k+1]), use_full=True, r_tr=_r_tr, r_add=_r_add, r_out=int(r), last=bool(last))
+                _x = {}
+                if _verif.enabled():
+                    _s2 = (tn.abs(s)**2).cpu().numpy()
+                    _x = dict(norm2=float(_s2.sum()), tail2=float(_s2[_r_tr:].sum()), nsv=int(_s2.size), cap=int(min(rmax[k+1], 2**31-1)), crit=float(dx), eps=float(eps))
+                _verif.emit('amen_step', swp=int(swp), k=int(k), rows=int(u.shape[0]), cols=int(rx[k+1]), use_full=True, r_tr=_r_tr, r_add=_r_add, r_out=int(r), last=bool(last), **_x)
                 v = tn.einsum('ji,jklm->iklm', v, x_cores[k+1])
                 # remove norm correction
                 nrmsc = nrmsc * normA[k] * normx[k] / normb[k]
@@ -401,6 +405,7 @@ def _amen_mm_python(A_cores, B_cores, M, N, K, to_ttm, nswp=22, X0_cores=None, r
             tme_sweep = datetime.datetime.now()-tme_sweep
             print('Time ', tme_sweep)
 
+        _verif.emit('amen_sweep', swp=int(swp), crit=float(max_dx), eps=float(eps), last=bool(last))
         if last:
             break
 
